@@ -47,5 +47,21 @@ func registry() map[string]PropSpec {
 			"json.Marshal / yaml.Node.Encode of a string or int scalar is modelled in the abstract JSON data model (no byte-level quoting)",
 		},
 	})
+	add(PropSpec{
+		ID: "C11",
+		Harnesses: []HSpec{
+			{Pkg: ".", Name: "c11_validate", Quick: map[string]int{"dims": 2, "adjs": 1}, Thorough: map[string]int{"dims": 2, "adjs": 2}, Unwind: [2]int{16, 24},
+				What: "validatePermutation accepts exactly what the specification sentence accepts, for every matrix, adjustment list and permutation within the bounds and every map iteration order; ShouldSkip truthiness"},
+			{Pkg: ".", Name: "c11_validate", Quick: map[string]int{"dims": 1, "adjs": 2}, Thorough: map[string]int{"dims": 1, "adjs": 3}, Unwind: [2]int{16, 24},
+				What: "same, fewer dimensions and more adjustments (repeated adjustments with conflicting skip flags)"},
+			{Pkg: ".", Name: "c11_step", Quick: map[string]int{"dims": 1, "adjs": 1}, Thorough: map[string]int{"dims": 2, "adjs": 2}, Unwind: [2]int{24, 32},
+				What: "InterpolateMatrixPermutation: a rejected permutation leaves command, label, key, env, plugins and matrix untouched"},
+		},
+		Outside: []string{
+			"more dimensions/adjustments/values than the bounds; dimension names and values longer than one byte (they are only compared for equality)",
+			"a setup dimension whose value list is nil (`dim: null`): the code treats it as an unknown dimension; excluded by construction, lists are non-nil",
+		},
+		Assumptions: []string{"regexp matching in c11_step uses the engine's backtracking matcher over the pattern read from the package initialiser"},
+	})
 	return r
 }
